@@ -821,7 +821,39 @@ def chief_ray(ctx):
             tgt = sym.sin(mf * A('pi') / C(180)) / sym.cos(mf * A('pi') / C(180))
             ok = sym.eq(a1[1] * A('U0[-1]'), a0[1] * tgt)
         else:
-            ok = sym.eq(a1[1] * A('Y0[-1]'), a0[1] * mf)
+            # the reverse trace ends at the first surface (the object surface
+            # records the arriving ray without moving it): the field height is
+            # defined at the object plane, a distance t further on, where
+            # t = z(object) - z(surface 1) in the reversed group
+            t = None
+            for st in ast.walk(f.node):
+                if isinstance(st, ast.Assign) and isinstance(
+                        st.targets[0], ast.Name):
+                    try:
+                        v = ev.env.get(st.targets[0].id)
+                    except Exception:
+                        v = None
+                    if isinstance(v, Rat) and len(v.atoms()) == 2 and all(
+                            a_.startswith('INV.positions[')
+                            for a_ in v.atoms()):
+                        t = v
+            tt = A('T')
+            want_t = None
+            if t is not None:
+                # t must be positions[-1] - positions[-2] of the inverted group
+                names = sorted(a_ for a_ in t.atoms())
+                if len(names) == 2:
+                    last = [a_ for a_ in names if '[-1]' in a_]
+                    prev = [a_ for a_ in names if '[-2]' in a_]
+                    if last and prev and rat_eq(t, A(last[0]) - A(prev[0])):
+                        want_t = t
+            if want_t is None:
+                ok = False
+                height_msg = ('the field height is taken at the first '
+                              'surface, not at the object plane')
+            else:
+                ok = sym.eq(a1[1] * (A('Y0[-1]') + A('U0[-1]') * want_t),
+                            a0[1] * mf)
         ok = ok and rat_eq(a1[0], a0[0]) and rat_eq(a0[0], ZERO) and \
             rat_eq(a1[2], a0[2]) and k0.get('reverse') == 'True' and \
             k1.get('reverse') == 'True' and k0.get('skip') == k1.get('skip') \
